@@ -139,6 +139,9 @@ func checkC08(c *Ctx) {
 			r.Undecided("C08-K2", shortName(f)+": "+k, v, "E3 cannot model: "+k)
 		}
 	}
+	if c.Tier == "thorough" && c.P.Config.GOARCH == "amd64" {
+		e3DeriveLexerModel(c, "C08-model")
+	}
 	r.Extra["e3_contexts"] = len(e.summ)
 	r.Extra["e3_rounds"] = e.rounds
 	r.Extra["e3_function_analyses"] = e.nAnalysed
